@@ -87,7 +87,19 @@ def replay_case(arg):
     try:
         with warnings.catch_warnings():
             warnings.simplefilter('error', RuntimeWarning)
-            if split:
+            if split and nt == 3 and (int(key, 16) // 28) % 2 == 0:
+                # the user's composed filter was built on the columns in another order and brought into the order of the data
+                # with sort_times BEFORE it is handed over (a 3-cycle, which does not commute with the transpositions among the
+                # time orders): the posterior's own sorting is composed with that order
+                fkind2 = fkind
+                pre = np.array([1, 2, 0])
+                d_pre = data[..., np.argsort(pre)]
+                filt = chi.ComposedPopulationFilter([getattr(chi, fkind)(d_pre[..., :split].copy()),
+                                                     getattr(chi, fkind)(d_pre[..., split:].copy())])
+                filt.sort_times(pre)
+                feats.append('composed_filter_sorted_before')
+                cnt['feat_composed_filter_sorted_before'] = 1
+            elif split:
                 filt = chi.ComposedPopulationFilter([getattr(chi, fkind)(data[..., :split].copy()),
                                                      getattr(chi, fkind2)(data[..., split:].copy())])
             else:
